@@ -54,7 +54,7 @@ SCHEMA = {
             "_picked_by_setup_nodes": Ref("EdgeRegister"), "_picked_by_cleanup_nodes": Ref("EdgeRegister"),
             "_dropped_setup_nodes": Ref("EdgeRegister"), "_dropped_cleanup_nodes": Ref("EdgeRegister"),
             "restrs": Map(STR, STR),
-            "should_run": POLICY, "should_clean": POLICY, "should_rerun_override": POLICY,
+            "should_run": POLICY, "should_clean": POLICY, "should_rerun": POLICY,
         },
     },
 }
@@ -429,6 +429,7 @@ def _default_policy(method):
 SCHEMA["TestNode"]["pydefaults"] = {
     "should_run": _default_policy("default_run_decision"),
     "should_clean": _default_policy("default_clean_decision"),
+    "should_rerun": None,
 }
 
 
